@@ -29,10 +29,10 @@ def ids(sel):
 
 def collect():
     os.makedirs(SEEDED, exist_ok=True)
-    for d in sorted(glob.glob("/tmp/wt-*/seeded/*")):
-        prop = d.split("/")[2][3:]
+    for d in sorted(glob.glob("/tmp/wt*-*/seeded/*")):
+        prop = d.split("/")[2].split("-")[1]
         name = os.path.basename(d)
-        dst = os.path.join(SEEDED, "%s-%s" % (prop, name))
+        dst = os.path.join(SEEDED, name if name.startswith(prop + "-") else "%s-%s" % (prop, name))
         if os.path.exists(dst):
             continue
         shutil.copytree(d, dst)
